@@ -46,6 +46,7 @@ Answers(it, m) ==
   THEN /\ it.id = m.id                                                   \* the caller's own id text
        /\ m.tag \in DOMAIN hs /\ hs[m.tag].st = "done"
        /\ IF hs[m.tag].out = "ok" THEN it.kind = "result" /\ it.tag = m.tag
+          ELSE IF hs[m.tag].out = "err:baddata" THEN it.kind = "error"     \* an error that cannot be encoded: still an error object, whatever its code
           ELSE it.kind = "error" /\ it.code = CodeOf(hs[m.tag].out)
   ELSE /\ m.k = "inv" /\ it.kind = "error" /\ it.code \in {-32700, -32600}
        /\ it.id = (IF m.echo = "" THEN "null" ELSE m.echo)
